@@ -39,11 +39,12 @@ vars == <<Programs, pool, pc, st, pend, results, stdout, mem>>
 \* thread programs: same rule / different data, same data / different rules, repetitions, erroring calls
 ProgSet2 == { <<Ix(2, 1)>>, <<Ix(3, 1), Ix(3, 3)>>, <<Ix(2, 1), Ix(2, 2)>>, <<Ix(5, 1), Ix(5, 2)>>, <<Ix(4, 3), Ix(4, 1)>>,
               <<Ix(6, 1), Ix(2, 1)>>, <<Ix(1, 2), Ix(3, 2)>>, <<Ix(7, 1), Ix(7, 3)>>, <<Ix(3, 1), Ix(3, 1)>> }
-ProgSet3 == { <<Ix(3, 1)>>, <<Ix(2, 2)>>, <<Ix(5, 3)>>, <<Ix(6, 1)>>, <<Ix(14, 1)>>, <<Ix(13, 2), Ix(13, 1)>> }
+ProgSet3 == { <<Ix(3, 1)>>, <<Ix(2, 2)>>, <<Ix(5, 3)>>, <<Ix(6, 1)>>, <<Ix(14, 1)>>, <<Ix(13, 2), Ix(13, 1)>>, <<Ix(15, 1), Ix(15, 2)>> }
 \* rule 9..12: index / substr / cat on the whole data; data 4..6: equal-length strings; rule 13: a 55-level arithmetic chain
 \* rule 13: missing_some with a repeated absent key (deterministic order of the missing list);
 \* rule 14: a log line followed by an error in the same call, as the LAST call of a thread (the line must still appear)
-Aliasing == { <<Ix(13, 1), Ix(13, 1), Ix(13, 2)>>, <<Ix(2, 1), Ix(14, 1)>>, <<Ix(14, 2)>>, <<Ix(9, 4), Ix(9, 5), Ix(9, 6), Ix(9, 4)>>, <<Ix(10, 5), Ix(10, 4)>>, <<Ix(11, 4), Ix(11, 5), Ix(12, 6), Ix(12, 4)>>, <<Ix(1, 1), Ix(1, 2), Ix(1, 3)>> }
+\* rule 15: the ?: alias (same call repeated: the second call must behave exactly like the first)
+Aliasing == { <<Ix(15, 1), Ix(15, 1)>>, <<Ix(13, 1), Ix(13, 1), Ix(13, 2)>>, <<Ix(2, 1), Ix(14, 1)>>, <<Ix(14, 2)>>, <<Ix(9, 4), Ix(9, 5), Ix(9, 6), Ix(9, 4)>>, <<Ix(10, 5), Ix(10, 4)>>, <<Ix(11, 4), Ix(11, 5), Ix(12, 6), Ix(12, 4)>>, <<Ix(1, 1), Ix(1, 2), Ix(1, 3)>> }
 DeepProgs == { <<DeepIx(1), DeepIx(2), DeepIx(1)>>, <<DeepIx(2), DeepIx(1)>>, <<DeepIx(1), Ix(9, 4), DeepIx(1)>> }
 \* big thread counts: the program assignments are enumerated (every thread the same kind of program, rotated),
 \* their interleavings are NOT explored by TLC (exponential) but sampled on real threads
